@@ -45,6 +45,10 @@ PROPS = {
     },
     "C02": {"theorems": props_theorems("C02") + C01_CORE + TIE_KMER + TIE_LETTERS, "partial": []},
     "C03": {"theorems": props_theorems("C03") + TIE_LETTERS, "partial": []},
+    "C04": {"theorems": props_theorems("C04") + C01_CORE + TIE_KMER, "partial": []},
+    "C08": {"theorems": props_theorems("C08") + C01_CORE + TIE_KMER, "partial": []},
+    "C11": {"theorems": props_theorems("C11"), "partial": []},
+    "C12": {"theorems": props_theorems("C12") + C01_CORE + TIE_KMER, "partial": []},
     "C09": {"theorems": props_theorems("C09") + TIE_MIN, "partial": []},
     "C18": {"theorems": props_theorems("C18") + TIE_KMIN + TIE_MIN, "partial": []},
 }
